@@ -378,8 +378,17 @@ func (e *env) gen(R *vh.Rng) (byte, []byte) {
 			b := []byte{0x02}
 			b = append(b, enc(n)...)
 			for i := 0; i < n; i++ {
-				b = append(b, enc(R.Bytes([]int{0, 4, 16, 40}[R.Intn(4)]))...) // IP
-				b = append(b, byte(R.Intn(256)), byte(R.Intn(256)))            // port
+				if R.Chance(10) {
+					b = append(b, 0x00) // a nil address
+					continue
+				}
+				b = append(b, 0x01)
+				ip := R.Bytes([]int{0, 4, 16, 40}[R.Intn(4)])
+				if R.Chance(40) {
+					ip = []byte{127, 0, 0, 1}
+				}
+				b = append(b, enc(ip)...)                           // IP
+				b = append(b, byte(R.Intn(256)), byte(R.Intn(256))) // port
 			}
 			return p2p.PexChannel, b
 		}
